@@ -694,6 +694,65 @@ def retarget_and_delete(rnd):
     return None
 
 
+def retarget_and_delete_block(rnd):
+    """retarget_symbol_uses(A, B) in a context that also deletes code: the whole block A labels, the whole block B labels, or an
+    unrelated one.  The retarget is decided on the module as it was handed over (A and B both label code there), so afterwards the call
+    operand names B with the attributes of a reference to B, the call edge leads to the block B labels NOW (B's label slides to the
+    next block when its own goes), and A's label is wherever the deletion left it.  Returns a violation text or None."""
+    import gtirb_rewriting
+    from gtirb_test_helpers import add_code_block, add_edge, add_proxy_block, add_symbol, add_text_section, create_test_module
+    pie = rnd.random() < 0.5
+    ir, m = create_test_module(gtirb.Module.FileFormat.ELF, gtirb.Module.ISA.X64, ["DYN"] if pie else ["EXEC"])
+    _, bi = add_text_section(m, address=0x1000)
+    A = add_symbol(m, "A")
+    B = add_symbol(m, "B")
+    c = add_code_block(bi, b"\xe8\0\0\0\0", {(1, 4): gtirb.SymAddrConst(0, A)})
+    after = add_code_block(bi, b"\x90\xc3")
+    a = add_code_block(bi, b"\x90\x90\xc3")
+    a2 = add_code_block(bi, b"\x90\xc3")
+    b = add_code_block(bi, b"\x90\xc3")
+    b2 = add_code_block(bi, b"\x90\x90\x90\xc3")
+    other = add_code_block(bi, b"\x90\xc3")
+    A.referent, B.referent = a, b
+    for k, blk in (("c", c), ("after", after), ("a2", a2), ("b2", b2), ("other", other)):
+        add_symbol(m, k, blk)
+    add_edge(ir.cfg, c, a, gtirb.Edge.Type.Call)
+    add_edge(ir.cfg, c, after, gtirb.Edge.Type.Fallthrough)
+    for blk in (after, a, a2, b, b2, other):
+        add_edge(ir.cfg, blk, add_proxy_block(m), gtirb.Edge.Type.Return)
+    which = rnd.choice(["a", "b", "other", "none"])
+    ctx = gtirb_rewriting.RewritingContext(m, [])
+    order = rnd.random() < 0.5
+    if order:
+        ctx.retarget_symbol_uses(A, B)
+    if which != "none":
+        blk = {"a": a, "b": b, "other": other}[which]
+        ctx.delete_at(blk, 0, blk.size)
+    if not order:
+        ctx.retarget_symbol_uses(A, B)
+    desc = f"call A; retarget_symbol_uses(A, B) and deletion of the whole block of `{which}` in one context ({'PIE' if pie else 'non-PIE'})"
+    try:
+        ctx.apply()
+    except Exception as e:    # noqa
+        return f"{desc}: apply raises {type(e).__name__}: {str(e)[:80]}"
+    exprs = {}
+    for x in m.byte_intervals:
+        for off, e in x.symbolic_expressions.items():
+            exprs[x.address + off] = e
+    e1 = exprs.get(c.address + 1)
+    if e1 is None or not isinstance(e1, gtirb.SymAddrConst) or e1.symbol is not B or e1.offset != 0:
+        return f"{desc}: the call operand is {None if e1 is None else getattr(e1.symbol, 'name', e1)}, expected B"
+    if {x.name for x in e1.attributes}:
+        return f"{desc}: the operand of a call to code of the module carries {sorted(x.name for x in e1.attributes)}"
+    want = b2 if which == "b" else b
+    if B.referent is not want:
+        return f"{desc}: B labels {getattr(B.referent, 'address', B.referent)}, expected the block at {want.address:#x}"
+    calls = [e for e in ir.cfg.out_edges(c) if e.label.type == gtirb.Edge.Type.Call]
+    if len(calls) != 1 or calls[0].target is not want:
+        return f"{desc}: the call edge leads to {[getattr(e.target, 'address', 'proxy') for e in calls]}, B is at {want.address:#x}"
+    return None
+
+
 # ------------------------------------------------------------------------------------ control flow of patches on x86-64 and AArch64
 def patch_control_flow(rnd):
     """A direct call to a function of the module, or straight-line code with an alignment directive in its middle, inserted at an
